@@ -169,19 +169,19 @@ EXTRA = {
     "C07": " Deep documents; UTF-16-length entry point; alignment sweep. Failing source: every node is also fed from a source that answers an error after the node's last character - an error strictly before it wins, otherwise Stream(bytes consumed) with the source's error value intact (the mechanism behind InvalidUtf8 in parse_slice); history sequences as in C01.",
     "C11": " The code map obtained from characters announced with their UTF-16 lengths, translated back, must equal the UTF-8 one. sub_fragments() of every fragment forwards, backwards and alternately from both ends against the children computed from the code map; map conversions on non-objects (root, nested, through Box), unparsable map keys reported at the key fragment, TryFromJsonObject.",
     "C12": " Six fixed escapes (three highs, two lows, one ordinary) followed and preceded by every one of the 65 536 escapes. History sequences as in C01 (including the lenient record); named option records.",
-    "C04": " Failing destination: printing into a writer that accepts k bytes, for every k, then a normal print on the same thread. The option-less conversions (Display, to_string, String::from(value)) must round-trip as well.",
+    "C04": " Printing at thread exit; eight threads printing at once (sampled). Failing destination: printing into a writer that accepts k bytes, for every k, then a normal print on the same thread. The option-less conversions (Display, to_string, String::from(value)) must round-trip as well.",
     "C13": " P2-all: every ordered pair of 101 neighbouring characters at several offsets under straddling width limits. Every numeric option field through the dense size list on four base records. Display under caller format parameters. Depth x indent family: nesting depths 1..40 and around 48/64/86/128 x 25 indent units, pretty and always-expanded. Other print routes: Print::fmt_with at base indentation levels 1 and 2 (the level-0 text with k more indent units after every line break), &Value, Meta<Value, M>, Stripped<Meta<...>>.",
     "C09": " Operation sequences (canonicalize / sort / push / remove / clone / clone_from, up to 3-4 steps) before canonicalization. Medium-precision spellings: every structured double rounded to 14..18 significant digits, last digit -1/0/+1, exponent and positional notation, both signs. Prefixed-keys family: common prefixes of every length 0..17 and around 24/32/64 (1-, 2-, 3-, 4-byte characters) x every ordered pair of 14 deciding tails x 3 suffix patterns. Every value is canonicalized through Value::canonicalize, Value::canonicalize_with with a number buffer reused across all calls of the thread, and (objects) Object::canonicalize / canonicalize_with; the routes must agree.",
     "C10": " Operation sequences as in C09. All medium-precision spellings of one double must canonicalize identically. Prefixed-keys family as in C09, also with equal member values. Every document is read through parse_str and parse_slice; both must canonicalize identically.",
-    "C15": " Objects whose extend was interrupted by a panicking source. Objects built through grow-and-drain routes (peaks through the index thresholds, four removal patterns) against fresh permutations. Pumped objects also with every value wrapped in a two-member object whose members are swapped in every other entry; Meta<Value, M> and Vec<Value> carriers.",
-    "C16": " Std containers and smart pointers (Box, Cow, arrays, 1-tuples, sets, deques, nested options, NonZero, Duration, Range, Result, paths, addresses) and a collect_str type as value and key.",
-    "C06": " Actions extend_entries_then_panic / extend_pairs_then_panic (source panics after k items, panic caught, object reused); lookup iterators through the whole Iterator protocol in every audit. Hash mode 3 (hook): every key index gets its own seed, as in production; action clone_from(n) into an independently built object; audits are not memoised in that mode.",
+    "C15": " Every ordered pair of 32 confusable scalars in five shapes. Objects whose extend was interrupted by a panicking source. Objects built through grow-and-drain routes (peaks through the index thresholds, four removal patterns) against fresh permutations. Pumped objects also with every value wrapped in a two-member object whose members are swapped in every other entry; Meta<Value, M> and Vec<Value> carriers.",
+    "C16": " Maps with number-like keys inside untagged / internally tagged / flattened types; hand-written impls with every length-hint pattern. Std containers and smart pointers (Box, Cow, arrays, 1-tuples, sets, deques, nested options, NonZero, Duration, Range, Result, paths, addresses) and a collect_str type as value and key.",
+    "C06": " Action canonicalize() and a run over two keys on which code-point and UTF-16 order differ; panicking value constructors. Actions extend_entries_then_panic / extend_pairs_then_panic (source panics after k items, panic caught, object reused); lookup iterators through the whole Iterator protocol in every audit. Hash mode 3 (hook): every key index gets its own seed, as in production; action clone_from(n) into an independently built object; audits are not memoised in that mode.",
     "C14": " clone_from law on every ordered pair of values. Construction routes with real spare capacity (fresh buffers), truncated long keys, clones. Wide-object laws: for every n through the size thresholds, a base object and every combination of two out of eight edits (37 objects): == structural, cmp antisymmetric, Equal iff equal, transitive on all triples, hashes.",
     "C19": " Boundary literals: the limits of every integer and float width (type-suffixed), one step inside each, and the decimal thresholds, in three contexts; every program is built under catch_unwind so that a panic is attributed to its program.",
     "C18": " Objects shaped like serde_json's arbitrary-precision number encoding (7 payloads x 4 placements) from both sides.",
-    "C20": " Every rendering under eight caller format specs: the plain text, or the plain text formatted as a whole.",
-    "C08": " Display under six caller format specs (width, fill, alignment, precision, alternate, zero): the compact text, or that text formatted as a whole (defect D15, fixed).",
-    "C17": " Coherence: Object's own Serialize / Deserialize impls must agree with Value's on every object, duplicates included.",
+    "C20": " Iteration order checked against Kind's own Ord; KindSetIter through the whole (double-ended) Iterator protocol. Every rendering under eight caller format specs: the plain text, or the plain text formatted as a whole.",
+    "C08": " Compact printing from a thread-local destructor at thread exit. Display under six caller format specs (width, fill, alignment, precision, alternate, zero): the compact text, or that text formatted as a whole (defect D15, fixed).",
+    "C17": " Build-configuration dimension: a probe program compiled under every feature set containing serde must give identical digests of to_value / from_value::<Value>. Coherence: Object's own Serialize / Deserialize impls must agree with Value's on every object, duplicates included.",
 }
 
 props = [json.loads(l) for l in open(f"{root}/properties.jsonl")]
@@ -236,7 +236,7 @@ manifest = {
     ],
     "checks": checks,
     "not_applicable": na,
-    "notes": "Every check is `./run <id> <tier>`; it rebuilds the check binary (and json-syntax with the hooks on) from /repo's working tree with cargo, offline, into /verif/.target. Known findings are listed in /verif/known_findings.json.",
+    "notes": "Build-profile dimension: ./run first runs the quick tier of the check from a build with debug assertions enabled (cargo profile verif-da; quick tier: C04 C05 C06 C08 C09 C10 C14 C15 C16 C17 C18 C20, thorough tier: every check), then the main pass from the release build. Every check is `./run <id> <tier>`; it rebuilds the check binary (and json-syntax with the hooks on) from /repo's working tree with cargo, offline, into /verif/.target. Known findings are listed in /verif/known_findings.json.",
 }
 json.dump(manifest, open(f"{root}/MANIFEST.json", "w"), indent=1)
 print("claimed:", [c["property_id"] for c in checks])
